@@ -98,6 +98,12 @@ Arguments sorted_path {U St} reach direct l.
 Arguments sort_stop {U St} reach direct l.
 Arguments sort_recycles {U St} reach direct l.
 
+(* decidable: reach is a strict partial order on the items of l (irreflexive, transitive) *)
+Definition strict_onb {U} (reach : U -> U -> bool) (l : list U) : bool :=
+  forallb (fun a => negb (reach a a)) l &&
+  forallb (fun a => forallb (fun b => forallb (fun c =>
+     implb (reach a b && reach b c) (reach a c)) l) l) l.
+
 (* ---- the unit/stream graph: (stream id, source unit, sink unit) for every process stream *)
 Definition edge := (nat * nat * nat)%type.
 Definition sid (e : edge) : nat := fst (fst e).
@@ -143,10 +149,11 @@ Definition set_eqb (a b : list nat) : bool := subsetb a b && subsetb b a.
 
 Definition sort_case (es : list edge) (ends path : list nat)
            (exp_path : list nat) (exp_stop : bool) (exp_recycles : list nat)
-           (exp_down : list (list nat)) : bool :=
+           (exp_down : list (list nat)) (exp_strict : bool) : bool :=
   let '(r, stop, rs) := sort_graph es ends path in
   list_eqb Nat.eqb r exp_path && Bool.eqb stop exp_stop && set_eqb rs exp_recycles
-  && list_eqb set_eqb (map (downstream es ends) path) exp_down.
+  && list_eqb set_eqb (map (downstream es ends) path) exp_down
+  && Bool.eqb exp_strict (strict_onb (reach_of es ends) path).
 
 (* ------------------------------------------------------------------ part 2: certificate checker *)
 (* a Network: path of units and sub-networks, with the recycle streams it carries *)
